@@ -2,7 +2,8 @@ import ModelD.Csv
 import ModelD.YamlScalar
 /-! # Model of `pydrex.io.save_scsv` / `read_scsv` (C16)
 
-Function by function after `src/pydrex/io.py` (at the commit that quotes header scalars):
+Function by function after `src/pydrex/io.py` (at commit 3a0fc08: header scalars quoted, fence only before the
+header is closed, no `NaN` special case, typed parsing errors reported as SCSVError):
 `_validate_scsv_schema` → `validate`, `_parse_scsv_bool` → `parseBool`, `_parse_scsv_cell` →
 `parseCell`, `write_scsv_header` → `headerLines`, `save_scsv` → `save`, `read_scsv` → `read`.
 Python exception classes are kept (`Err`). CPython's float/complex formatting and parsing are
@@ -116,23 +117,13 @@ def construct (E : FloatExt) (t : Ty) (f : PyVal) : Except Err Val :=
   | .complex, .int _ => .error .unmodelled
   | .complex, .float x => .ok (.complex x zeroBits)
 
-/-- `t(np.nan)` -/
-def constructNaN (t : Ty) : Except Err Val :=
-  match t with
-  | .str => .ok (.str "nan".toList)
-  | .int => .error .value
-  | .float => .ok (.float nanBits)
-  | .bool => .ok (.bool true)
-  | .complex => .ok (.complex nanBits zeroBits)
-
 /-- `_parse_scsv_bool` -/
 def parseBool (x : Str) : Bool :=
   (["yes", "true", "t", "1"].map String.toList).contains (lower x)
 
 /-- `_parse_scsv_cell(func, data, missingstr, fillval)` -/
 def parseCell (E : FloatExt) (t : Ty) (data : Str) (missing : Str) (fill : PyVal) : Except Err Val :=
-  if strip data = missing then
-    if fill = .str "NaN".toList then constructNaN t else construct E t fill
+  if strip data = missing then construct E t fill
   else if t = .bool then .ok (.bool (parseBool data))
   else construct E t (.str (strip data))
 
@@ -280,14 +271,16 @@ def save (E : FloatExt) (s : Schema) (data : List (List Val)) : Except Err Str :
 
 /-! ## read -/
 
-/-- the loop over the file's lines in `read_scsv`: (yaml lines, csv lines) -/
-def fenceSplit : List Str → Bool → List Str × List Str
-  | [], _ => ([], [])
-  | l :: ls, isYaml =>
-    if l = ['\n'] then fenceSplit ls isYaml
-    else if l = "---\n".toList then fenceSplit ls (!isYaml)
+/-- the loop over the file's lines in `read_scsv`: (yaml lines, csv lines).
+`isYaml`: inside the YAML section; `done`: the YAML section has been closed. -/
+def fenceSplit : List Str → Bool → Bool → List Str × List Str
+  | [], _, _ => ([], [])
+  | l :: ls, isYaml, done =>
+    if l = ['\n'] then fenceSplit ls isYaml done
+    else if l = "---\n".toList ∧ !done then
+      if isYaml then fenceSplit ls false true else fenceSplit ls true false
     else
-      let (y, c) := fenceSplit ls isYaml
+      let (y, c) := fenceSplit ls isYaml done
       if isYaml then (l :: y, c) else (y, l :: c)
 
 def dropNL (l : Str) : Str := if l.getLast? = some '\n' then l.dropLast else l
@@ -379,7 +372,7 @@ def parseColumns (E : FloatExt) (missing : Str) : List (Ty × PyVal) → List (L
 
 /-- `read_scsv` on the lines of the file (each with its terminator): field names and columns -/
 def readLines (E : FloatExt) (lines : List Str) : Except Err (List Str × List (List Val)) := do
-  let (yamlLines, csvLines) := fenceSplit lines false
+  let (yamlLines, csvLines) := fenceSplit lines false false
   let s ← parseHeader yamlLines
   let ok ← validate s
   if !ok then throw .scsv
@@ -395,8 +388,10 @@ def readLines (E : FloatExt) (lines : List Str) : Except Err (List Str × List (
         if names ≠ hdr.map strip then throw .scsv
         if !namedtupleOK names then throw .value
         let tfs := fs.map (fun f => ((typeOf f.typeName).getD .str, f.fillVal))
-        let cols ← optErr .value (zipStarStrict rows)
-        let vals ← parseColumns E m tfs cols
+        -- `try: … except ValueError: raise SCSVError` around the typed parsing
+        let vals ← valueToScsv do
+          let cols ← optErr .value (zipStarStrict rows)
+          parseColumns E m tfs cols
         pure (names, vals)
     | _ => throw .type                                         -- csv.reader: 1-character delimiter
   | _, _, _ => throw .unmodelled
